@@ -347,6 +347,23 @@ class CallsMixin:
             for s1, lst in self.comprehension_map(a0.args[0], a0.args[1], st, d):
                 s1 = s1.copy(); out.append((s1, self.sum_list(s1, lst)))
             return out
+        if isinstance(a0, ast.GeneratorExp) and n in ("sum", "any", "all", "list"):
+            # a generator expression consumed on the spot by sum / any / all / list behaves like the list comprehension
+            lc = ast.ListComp(elt=a0.elt, generators=a0.generators); ast.copy_location(lc, a0); ast.fix_missing_locations(lc)
+            e2 = ast.Call(func=e.func, args=[lc] + list(e.args[1:]), keywords=e.keywords); ast.copy_location(e2, e); ast.fix_missing_locations(e2)
+            if n == "list":
+                return self.ev(lc, st, d)
+            return self.call_idiom(e2, n, st, d)
+        if n in ("any", "all") and isinstance(a0, ast.ListComp) and len(a0.generators) == 1 and not a0.generators[0].ifs and len(e.args) == 1:
+            out = []
+            for s1, lst in self.ev(a0, st, d):
+                if lst.ty[0] != "list" or lst.ty[1] != ("bool",):
+                    raise Unsupported(f"{n}() over non-boolean elements")
+                s1 = s1.copy()
+                nn = s1.length(lst.term, ("bool",)); el = s1.elems(lst.term, ("bool",)); i = z3.Int(fresh_name("i_" + n))
+                f = z3.Exists([i], z3.And(0 <= i, i < nn, z3.Select(el, i))) if n == "any" else z3.ForAll([i], z3.Implies(z3.And(0 <= i, i < nn), z3.Select(el, i)))
+                out.append((s1, V(("bool",), f)))
+            return out
         if n == "sum" and isinstance(a0, ast.ListComp):
             out = []
             rest = e.args[1:]
